@@ -96,6 +96,7 @@ fn dispatch(mode: &str, line: &str) -> String {
         "oracle" => oracle(line),
         "retain" => tree::retain(line),
         "ovw" => opts::ovw(line),
+        "into" => opts::into(line),
         _ => panic!("unknown mode {mode}"),
     }
 }
